@@ -79,6 +79,17 @@ CHECKS["C19"] = dict(
          "temperatures within [0.8*lo, 1.2*hi] of each range",
     technique=Z + " with uninterpreted transcendental functions and argument matching", ref="DESIGN.md section 5 C19")
 
+CHECKS["C18"] = dict(
+    engine="Z", category="other",
+    text="bounded symbolic verification: ionic_strength (list/dict/array forms), A, B, limiting/extended/Davies log-gamma and the "
+         "activity products are executed on z3 reals with symbolic integer charges -4..4; z3 proves the definitions, "
+         "permutation/merge/scaling invariance, 'neutrality warning <=> not neutral', agreement of the numeric-constant path of A and B "
+         "with the constants-object path within 1e-5 relative for ALL positive (eps_r, T, rho, b0) and unit scales, unit-scale "
+         "invariance/dimension of A and B, and the limiting cases of the extended formula",
+    note="idealised units stub; sqrt/half-integer powers and exp uninterpreted with ground facts (vlib/ufnorm.py); 2-4 ions; CODATA "
+         "values for the two-path comparison; real-`quantities` inputs outside",
+    technique=Z + " with uninterpreted sqrt/exp and argument matching", ref="DESIGN.md section 5 C18")
+
 NA = {
     "C09": "property is about float conversion factors produced inside the 'quantities' package and numpy array helpers; no symbolic "
            "value survives to_unitless (float(result)), and symbolic magnitudes alone would only re-prove linearity (DESIGN.md section 6)",
